@@ -3,6 +3,7 @@
 spec: DykstraProps.tla (ProjectionExact / LandsInSet / Bookkeeping / FixedPointStep on LatticeConstraint),
       MC_Dykstra.tla (Dykstra-only configuration spaces), TraceDykstra.tla (code -> spec)
 """
+import itertools
 import json
 from fractions import Fraction
 
@@ -54,6 +55,24 @@ def dyk_events(tf, ctx, files):
   return evs
 
 
+def candidates(sizes):
+  idx = np.array(list(itertools.product(*[range(s) for s in sizes])))       # row-major, as the kernel is laid out
+  out = [np.ones(len(idx), dtype=int)]
+  for d, s in enumerate(sizes):
+    out.append(idx[:, d])
+    for k in range(1, s):
+      out.append((idx[:, d] >= k).astype(int))
+  out.append(idx.sum(axis=1))
+  for v in idx:
+    out.append(np.abs(idx - v).sum(axis=1))
+    out.append(np.abs(idx - v).max(axis=1))
+  res = []
+  for y in out:
+    res.append([int(t) for t in y])
+    res.append([-int(t) for t in y])
+  return res
+
+
 def conv_event(tf, tfl, c, K):
   """One Conv event per column of K for configuration c (families only, no bounds)."""
   evs = []
@@ -73,6 +92,11 @@ def conv_event(tf, tfl, c, K):
           "test": [-1, 0, 1],
           "site": {"layer": "lattice", "ev": "Conv"},
           "call": {"path": "Conv", "cfg": c, "w0": [float(v) for v in K[:, u]]}}
+    if int(np.prod(c["sizes"])) > 9:
+      # the enumerated test set would have 3^vertices members: structured candidates instead (the trace module keeps
+      # the feasible ones): constants, steps and ramps along each dimension, distances to each vertex, either sign
+      ev["test"] = []
+      ev["tests"] = candidates(c["sizes"])
     if not common.all_finite(last[:, u]) or not common.all_finite(strictw[:, u]):
       ev = {"ev": "NonFinite", "cfg": c, "site": ev["site"], "call": ev["call"]}
     evs.append(ev)
@@ -126,6 +150,30 @@ def conv_cfgs(ctx, files, rng):
       c[fam] = [t1, t2]
       c.update({"iters": 1, "strict": False})
       cfgs.append(c)
+  # larger lattices (the enumerated spaces stop at 9 vertices): index arithmetic at the last vertices of long
+  # dimensions, jointly unimodal pairs with neighbours on the far edge
+  big = []
+  for sizes, dirs in (([5, 5], "valley"), ([5, 5], "peak"), ([5, 4], "valley"), ([4, 6], "peak")):
+    c = latcfg.base(sizes)
+    c["juni"] = [[[1, 2], dirs]]
+    big.append(c)
+  for sizes in ([5], [6]):
+    c = latcfg.base(sizes)
+    c["uni"] = [1 if sizes[0] == 5 else -1]
+    big.append(c)
+  for sizes, fam in (([4, 4], "edge"), ([5, 3], "trap"), ([3, 5], "edge"), ([4, 3], "mdom"), ([3, 4], "jmono")):
+    c = latcfg.base(sizes)
+    c["mono"] = [1, 1] if fam == "mdom" else ([0, 0] if fam == "jmono" else [1, 0])
+    c[fam] = [[1, 2, 1]] if fam in ("edge", "trap") else [[1, 2]]
+    big.append(c)
+  if not ctx.quick:
+    c = latcfg.base([3, 3, 5])
+    c["juni"] = [[[2, 3], "valley"]]
+    c["mono"] = [1, 0, 0]
+    big.append(c)
+  for c in big:
+    c.update({"iters": 1, "strict": False})
+    cfgs.append(c)
   # random family mixes on small lattices
   n = 6 if ctx.quick else 80
   while n > 0:
